@@ -119,7 +119,7 @@ func ZzvC16Evictor() {
 
 type zzvNestedAPI struct {
 	pe     *PodEvictor
-	second *corev1.Pod
+	others []*corev1.Pod
 	depth  int
 	done   []string
 }
@@ -144,8 +144,8 @@ func (p *zzvNestedPolicy) Evictions(ns string) policyv1.EvictionInterface {
 }
 func (e *zzvNestedEvictions) Evict(ctx context.Context, ev *policyv1api.Eviction) error {
 	e.api.depth++
-	if e.api.depth == 1 && e.api.second != nil {
-		e.api.pe.Evict(ctx, e.api.second, framework.EvictOptions{}) // the other goroutine, start to finish
+	if e.api.depth <= len(e.api.others) {
+		e.api.pe.Evict(ctx, e.api.others[e.api.depth-1], framework.EvictOptions{}) // the next goroutine, start to finish
 	}
 	e.api.done = append(e.api.done, e.ns+"/"+ev.Name)
 	return nil
@@ -172,13 +172,18 @@ func ZzvC16EvictorRace() {
 		is := strconv.Itoa(i)
 		return &corev1.Pod{ObjectMeta: metav1.ObjectMeta{Namespace: nss[zzverif.Choice("ns"+is, 2)], Name: "p" + is}, Spec: corev1.PodSpec{NodeName: nodes[zzverif.Choice("node"+is, 2)]}}
 	}
-	p1, p2 := mk(1), mk(2)
-	api := &zzvNestedAPI{second: p2}
+	p1 := mk(1)
+	api := &zzvNestedAPI{}
+	all := []*corev1.Pod{p1}
+	for g := 2; g <= zzverif.Param("goroutines"); g++ {
+		api.others = append(api.others, mk(g))
+	}
+	all = append(all, api.others...)
 	pe := NewPodEvictor(&zzvNestedClient{api: api}, zzvRecorder{}, "policy/v1", false, perNode, perNs)
 	api.pe = pe
 	pe.Evict(context.TODO(), p1, framework.EvictOptions{})
 	byNode, byNs := map[string]uint64{}, map[string]uint64{}
-	for _, p := range []*corev1.Pod{p1, p2} {
+	for _, p := range all {
 		for _, d := range api.done {
 			if d == p.Namespace+"/"+p.Name {
 				byNode[p.Spec.NodeName]++
@@ -186,8 +191,8 @@ func ZzvC16EvictorRace() {
 			}
 		}
 	}
-	if len(api.done) == 2 {
-		zzverif.Reach("both-evictions-issued")
+	if len(api.done) == len(all) {
+		zzverif.Reach("all-evictions-issued")
 	}
 	for _, n := range nodes {
 		zzverif.Assert(zzverif.Implies(perNode != nil, byNode[n] <= capNode), "evictions per node never exceed the cap, no matter how many evict at the same time")
